@@ -62,6 +62,12 @@ def check_resolve_order(rep: Report, prog: Program) -> None:
     class _Done(Exception):
         def __init__(self, kind: str) -> None:
             self.kind = kind
+    # locals that only name a registry: `by_symbol = cls._by_symbol`
+    reg_alias: Dict[str, str] = {}
+    for n_ in ast.walk(fi.node):
+        if isinstance(n_, ast.Assign) and len(n_.targets) == 1 and isinstance(n_.targets[0], ast.Name) and isinstance(n_.value, ast.Attribute) \
+                and n_.value.attr in ("_by_symbol", "_by_name"):
+            reg_alias[n_.targets[0].id] = ast.unparse(n_.value)
 
     def classify(v: Optional[ast.AST], env: Dict[str, str]) -> str:
         if v is None:
@@ -69,6 +75,8 @@ def check_resolve_order(rep: Report, prog: Program) -> None:
         if isinstance(v, ast.Name) and v.id in env:
             return env[v.id]
         t = ast.unparse(v).replace(" ", "")
+        for al_, full_ in reg_alias.items():
+            t = t.replace(f"{al_}[", f"{full_}[")
         if isinstance(v, ast.BinOp) and isinstance(v.op, ast.Mult):
             return "split"
         if "_by_symbol[" + text + "]" in t:
@@ -83,6 +91,7 @@ def check_resolve_order(rep: Report, prog: Program) -> None:
             return None if v is None else not v
         if isinstance(t, ast.Compare) and len(t.ops) == 1 and isinstance(t.ops[0], (ast.In, ast.NotIn)) and ast.unparse(t.left) == text:
             reg = ast.unparse(t.comparators[0])
+            reg = reg_alias.get(reg, reg)
             v = facts["S"] if reg.endswith("_by_symbol") else (facts["N"] if reg.endswith("_by_name") else None)
             return None if v is None else (v if isinstance(t.ops[0], ast.In) else not v)
         return None
@@ -90,6 +99,8 @@ def check_resolve_order(rep: Report, prog: Program) -> None:
     def may_fail(st: ast.stmt) -> bool:
         """a lookup of a *piece* of the text (raises KeyError when no split resolves)"""
         t = ast.unparse(st)
+        for al_, full_ in reg_alias.items():
+            t = t.replace(f"{al_}[", f"{full_}[")
         return ("Prefix.resolve_symbol(" in t or "_by_symbol[" in t) and f"[{text}]" not in t.replace(" ", "")
 
     def run(body: List[ast.stmt], facts: Dict[str, bool], env: Dict[str, str]) -> str:
